@@ -1,4 +1,4 @@
 ------------------------------- MODULE MCWebUI -------------------------------
 EXTENDS WebUI, Json
-Emit == PrintT("CASE " \o ToJson([route |-> r, method |-> m, host |-> h, expect |-> Expect, shown |-> Shown(r), changes |-> Changes(r)]))
+Emit == PrintT("CASE " \o ToJson([route |-> r, method |-> m, host |-> h, expect |-> Expect, shown |-> Shown(r), changes |-> Changes(r), playlist |-> Playlist(r), nfiles |-> PlaylistFiles(r)]))
 =============================================================================
